@@ -4,7 +4,10 @@ import os, shutil, subprocess, sys, tempfile
 patch = sys.argv[1]
 d = tempfile.mkdtemp(prefix='nvprobe_')
 try:
+    import fcntl
+    lk = open('/tmp/nv_repo.lock', 'w'); fcntl.flock(lk, fcntl.LOCK_EX)
     shutil.copytree('/repo/nautilus', os.path.join(d, 'nautilus'), ignore=shutil.ignore_patterns('__pycache__'))
+    fcntl.flock(lk, fcntl.LOCK_UN)
     r = subprocess.run(['patch', '-p1', '-s', '-d', d, '-i', patch], capture_output=True, text=True)
     if r.returncode:
         print('patch failed', r.stdout, r.stderr); sys.exit(3)
